@@ -87,8 +87,9 @@ _KNOWN_SIGS: list[list[str]] = []
 _TIER = "quick"
 
 
-class _RunTimeout(Exception):
-    pass
+class _RunTimeout(BaseException):
+    """Per-run watchdog.  A BaseException, so that the machines' broad `except Exception`
+    (they record the system's exceptions as outcomes) cannot swallow it."""
 
 
 def _alarm(signum, frame):  # noqa: ANN001, ARG001
@@ -263,11 +264,12 @@ def main(argv: list[str]) -> int:
                     break
                 results.extend(_run_chunk(c))
         else:
-            with cf.ProcessPoolExecutor(max_workers=jobs, mp_context=ctx) as ex:
+            ex = cf.ProcessPoolExecutor(max_workers=jobs, mp_context=ctx)
+            try:
                 pending: dict = {}
                 it = iter(chunks)
                 exhausted = False
-                hard_deadline = t_explore + budget + machine.run_timeout * chunk + 60
+                hard_deadline = t_explore + budget + machine.run_timeout * 3 + 60
                 while True:
                     while not exhausted and len(pending) < jobs * 2 and time.monotonic() - t_explore < budget:
                         try:
@@ -292,6 +294,13 @@ def main(argv: list[str]) -> int:
                         break
                     if time.monotonic() - t_explore >= budget:
                         exhausted = True
+            finally:
+                # never wait for workers that may hang inside C code
+                procs = list(getattr(ex, "_processes", {}).values())
+                ex.shutdown(wait=False, cancel_futures=True)
+                if harness_errors and any("hard deadline" in e for e in harness_errors):
+                    for p in procs:
+                        p.kill()
         results.sort(key=lambda r: r["index"])
         explore_s = time.monotonic() - t_explore
 
